@@ -426,6 +426,22 @@ func h5Sequential[T num, A arr[T, A]](k kit[T, A], rc *RunCtx, o *Outcome, ctl *
 			v[i] = next
 			next++
 		}
+		if !faults && n > 0 {
+			// "boring" data is valid data: a block of zeros (what a new dataset is filled with) or
+			// of one repeated value must be transferred like any other.  (Not under injected faults:
+			// the narrowed oracle there tells old from new data by their values.)
+			switch w.Choose(8) {
+			case 6:
+				for i := range v {
+					v[i] = 0
+				}
+				o.probe("all_zero_block_written")
+			case 7:
+				for i := range v {
+					v[i] = v[0]
+				}
+			}
+		}
 		return v
 	}
 	var log []string
@@ -986,7 +1002,7 @@ func h5Concurrent[T num, A arr[T, A]](k kit[T, A], rc *RunCtx, o *Outcome, ctl *
 	w := rc.W
 	ctl.Latency = w.Bool(50)
 	fnames := []string{"/sim/c.h5", "/sim/d.h5"}
-	nDS := 1 + w.Choose(3)
+	nDS := 1 + w.Choose(4) // with four, each of the two files can hold two datasets that do not exist yet
 	type dsInfo struct {
 		path  string
 		shape []int
@@ -1021,10 +1037,27 @@ func h5Concurrent[T num, A arr[T, A]](k kit[T, A], rc *RunCtx, o *Outcome, ctl *
 		dss = append(dss, dsInfo{full, shape})
 		events = append(events, h5Event{Client: 0, Call: int64(-2*nDS + 2*i), Return: int64(-2*nDS + 2*i + 1), In: h5In{Op: "init", Path: full, Shape: shape, Vals: vals}})
 	}
+	// a file all of whose datasets are yet to be created may itself not exist when the clients start:
+	// the first writers then also create the file, concurrently
+	fileMissing := map[string]bool{}
+	for _, fn := range fnames {
+		all, any := true, false
+		for _, d := range dss {
+			if strings.HasPrefix(d.path, fn+":") {
+				any = true
+				if !absent[d.path] {
+					all = false
+				}
+			}
+		}
+		if any && all && w.Bool(60) {
+			fileMissing[fn] = true
+		}
+	}
 	nClients := 2 + w.Choose(3)
 	opsPer := 2 + w.Choose(5)
-	if nClients*opsPer > 22 {
-		opsPer = 22 / nClients
+	if nClients*opsPer > 20 {
+		opsPer = 20 / nClients
 	}
 	// pre-draw every client's operations (the workload must not depend on the schedule)
 	plans := make([][]h5In, nClients)
@@ -1061,8 +1094,11 @@ func h5Concurrent[T num, A arr[T, A]](k kit[T, A], rc *RunCtx, o *Outcome, ctl *
 	s := simrt.Run(rc.T, simrt.Config{}, rc.S, func() {
 		for _, e := range events {
 			if e.In.Op == "init-absent" {
-				// make sure the file exists (the dataset does not)
-				hdf5.MakeGroup(e.In.Path[:strings.Index(e.In.Path, ":")], "/")
+				// the file exists (the dataset does not) - unless the file is to be created by the
+				// clients as well
+				if fn := e.In.Path[:strings.Index(e.In.Path, ":")]; !fileMissing[fn] {
+					hdf5.MakeGroup(fn, "/")
+				}
 				continue
 			}
 			if err := refOf(k, e.In.Path, nil).Write(makeSource(k, 0, e.In.Shape, e.In.Vals, w)); err != nil {
@@ -1117,6 +1153,19 @@ func h5Concurrent[T num, A arr[T, A]](k kit[T, A], rc *RunCtx, o *Outcome, ctl *
 			<-done
 			simrt.Yield("h5:join>")
 		}
+		// epilogue: when every client has finished, each dataset is read once more, so that the
+		// final contents of the disk are part of the history (an acknowledged write that was lost
+		// later shows here even if no client happened to read it)
+		for _, d := range dss {
+			ev := h5Event{Client: 0, In: h5In{Op: "load", Path: d.path}, Call: simrt.NextSeq()}
+			a, err := refOf(k, d.path, nil).Load()
+			ev.Out.Err = err != nil
+			if err == nil {
+				ev.Out.Shape, ev.Out.Vals = readAll[T, A](a)
+			}
+			ev.Return = simrt.NextSeq()
+			simrt.Record(ev)
+		}
 	})
 	o.Sim = s
 	o.Nontrivial = s.Stats.Picks > 0
@@ -1163,6 +1212,9 @@ func h5Concurrent[T num, A arr[T, A]](k kit[T, A], rc *RunCtx, o *Outcome, ctl *
 	}
 	if len(absent) > 0 {
 		o.probe("dataset_created_by_a_concurrent_client")
+	}
+	if len(fileMissing) > 0 {
+		o.probe("file_created_by_concurrent_clients")
 	}
 }
 
